@@ -257,7 +257,11 @@ class Eval:
                     self.effect(xs["then"], e_then, depth)
                     self.conds.pop()
                     e_rest = dict(env)
-                    self.conds.append((("survived", c), False))   # the earlier exit was not taken (implied by the order of `returns`)
+                    if _leaves_loop_only(xs["then"]):
+                        # `if c { continue }` / `{ break }`: the rest of this iteration runs under not c - a fact of every later exit as well
+                        self.conds.append((c, False))
+                    else:
+                        self.conds.append((("survived", c), False))   # the earlier exit was not taken (implied by the order of `returns`)
                     if "else" in xs:
                         self.effect(xs["else"], e_rest, depth)
                     v = self.seq(stmts[i + 1:], tail, e_rest, depth, value)
@@ -1005,6 +1009,14 @@ class Eval:
                     self._helper_stack.pop()
                     self._helper_depth -= 1
         return ("call", name, tuple(args))
+
+
+def _leaves_loop_only(e):
+    """does the diverging block e end in `continue` / `break` (and nowhere in a `return` or a panic)?"""
+    kinds = {n.get("k") for n in hq.walk(e) if isinstance(n, dict)}
+    if "Ret" in kinds or any(isinstance(n, dict) and n.get("mac") in ("panic", "unreachable", "todo", "unimplemented") for n in hq.walk(e)):
+        return False
+    return bool(kinds & {"Continue", "Break"})
 
 
 PHI_GUARDS = {}    # (("match", scrutinee), "<pattern> if ..") -> {guard term}: see Eval.effect
